@@ -40,7 +40,7 @@ package v2
 
 // C13: labels with empty values are dropped, nothing else changes
 //@ func removeEmptyLabels
-//@   props C13 C16
+//@   props C13 C16 C06 C18
 //@   ensures [kept] forall k prometheus_model.LabelName :: (k in ls) == (old(k in ls) && ls[k] != "")
 //@   ensures [values] forall k prometheus_model.LabelName :: k in ls ==> ls[k] == old(ls[k])
 //@   loop 1 invariant forall k prometheus_model.LabelName :: (k in ls) == (old(k in ls) && !(k in visited && old(ls[k]) == ""))
@@ -233,3 +233,34 @@ package v2
 //@   ensures [status-callback-of-the-new-components] api.setAlertStatus == setAlertStatus
 //@   assigns api.alertmanagerConfig, api.route, api.setAlertStatus
 //@   noeffect dispatch.NewRoute
+
+// ---- C12 / C02: what GET shows of a stored silence: its own id, times, comment and creator, and its matchers in the
+// stored order with the stored name, pattern and operator each (a client that reads a silence and posts it back with
+// another comment or end must find it unchanged in everything else, or the edit creates a new id).
+//@ spec pbIsEqual(t silencepb.Matcher_Type) bool = t == silencepb.Matcher_EQUAL || t == silencepb.Matcher_REGEXP
+//@ spec pbIsRegex(t silencepb.Matcher_Type) bool = t == silencepb.Matcher_REGEXP || t == silencepb.Matcher_NOT_REGEXP
+//@ func GettableSilenceFromProto
+//@   props C12 C02
+//@   requires s != nil
+//@   assumes forall i int :: 0 <= i && i < len(s.MatcherSets) ==> s.MatcherSets[i] != nil
+//@   assumes forall i int, j int :: 0 <= i && i < len(s.MatcherSets) && 0 <= j && j < len(s.MatcherSets[i].Matchers) ==> s.MatcherSets[i].Matchers[j] != nil
+//@   after call fmt.Errorf assume res0 != nil
+//@   ensures [identity-and-text] result0.ID != nil && deref(result0.ID) == s.Id && result0.Comment != nil && deref(result0.Comment) == s.Comment
+//@             && result0.CreatedBy != nil && deref(result0.CreatedBy) == s.CreatedBy && result0.Annotations == s.Annotations
+//@   ensures [several-matcher-sets-are-refused] (len(s.MatcherSets) > 1) ==> result1 != nil
+//@   ensures [matchers-in-stored-order] result1 == nil && len(s.MatcherSets) == 1 ==> len(result0.Matchers) == len(s.MatcherSets[0].Matchers)
+//@             && (forall i int :: 0 <= i && i < len(result0.Matchers) ==> result0.Matchers[i] != nil
+//@                   && result0.Matchers[i].Name != nil && deref(result0.Matchers[i].Name) == s.MatcherSets[0].Matchers[i].Name
+//@                   && result0.Matchers[i].Value != nil && deref(result0.Matchers[i].Value) == s.MatcherSets[0].Matchers[i].Pattern
+//@                   && result0.Matchers[i].IsEqual != nil && deref(result0.Matchers[i].IsEqual) == pbIsEqual(s.MatcherSets[0].Matchers[i].Type)
+//@                   && result0.Matchers[i].IsRegex != nil && deref(result0.Matchers[i].IsRegex) == pbIsRegex(s.MatcherSets[0].Matchers[i].Type))
+//@   ensures [no-matchers-without-a-set] result1 == nil && len(s.MatcherSets) == 0 ==> len(result0.Matchers) == 0
+//@   ensures [the-stored-silence-is-untouched] s.MatcherSets == old(s.MatcherSets) && s.Id == old(s.Id)
+//@   loop 1 invariant len(s.MatcherSets) == 1 && rangeindex < len(s.MatcherSets[0].Matchers) && len(sil.Matchers) == rangeindex + 1 && fresh(sil.Matchers)
+//@   loop 1 invariant sil.ID != nil && deref(sil.ID) == s.Id && sil.Comment != nil && deref(sil.Comment) == s.Comment && sil.CreatedBy != nil && deref(sil.CreatedBy) == s.CreatedBy && sil.Annotations == s.Annotations
+//@   loop 1 invariant forall i int :: 0 <= i && i < len(sil.Matchers) ==> sil.Matchers[i] != nil && fresh(sil.Matchers[i])
+//@                   && sil.Matchers[i].Name != nil && fresh(sil.Matchers[i].Name) && deref(sil.Matchers[i].Name) == s.MatcherSets[0].Matchers[i].Name
+//@                   && sil.Matchers[i].Value != nil && fresh(sil.Matchers[i].Value) && deref(sil.Matchers[i].Value) == s.MatcherSets[0].Matchers[i].Pattern
+//@                   && sil.Matchers[i].IsEqual != nil && fresh(sil.Matchers[i].IsEqual) && deref(sil.Matchers[i].IsEqual) == pbIsEqual(s.MatcherSets[0].Matchers[i].Type)
+//@                   && sil.Matchers[i].IsRegex != nil && fresh(sil.Matchers[i].IsRegex) && deref(sil.Matchers[i].IsRegex) == pbIsRegex(s.MatcherSets[0].Matchers[i].Type)
+//@   assigns nothing
